@@ -47,6 +47,8 @@ def _defining_call_block(fn, op, hops=6):
             op = rv["op"]
         elif rv["k"] == "unop" and rv["op"] == "Not":
             op = rv["a"]
+        elif rv["k"] == "discr" and not rv["pl"]["p"]:
+            op = {"k": "copy", "pl": rv["pl"]}
         else:
             return None
         hops -= 1
